@@ -17,7 +17,7 @@ RULE = (
     "Exhaustive cross products from the harness's own copy of the documented code tables: all "
     "3600 product ids, 20 scan suffixes, all 13149 acquisition dates 2014-2049 in scene ids, all "
     "file-name shapes (IMG x 4 polarisations x {no scan, 20 scans} + VOL/LED/TRL) x 3600 product "
-    "ids (thorough; a 1/2 stride in quick), uniqueness of the image group name over all "
+    "ids, uniqueness of the image group name over all "
     "(polarisation, scan number) pairs; Hypothesis near-misses (substitute / delete / insert one "
     "character, truncate, append garbage, lower-case) judged by an independent hand-written "
     "recogniser with three values (in language -> table meaning must be returned; out of language "
@@ -248,6 +248,8 @@ def strings_for(case):
 
 
 def run_case(case):
+    if case["kind"] == "fuzz-input":
+        return FUZZ_TARGETS[case["target"]](bytes.fromhex(case["data"]))[0]
     if case["kind"] == "groupnames":
         return check_group_names()
     if case["kind"] == "open":
@@ -326,7 +328,7 @@ def enum_cases(tier):
     n_dates = 13149
     for start in range(0, n_dates, 500):
         yield {"kind": "scene_id", "start": start, "count": min(500, n_dates - start)}
-    stride = 2 if tier == "quick" else 1
+    stride = 1
     for shape in range(len(filename_shapes())):
         for start in range(0, 3600, 1200):
             yield {"kind": "filename", "shape": shape, "start": start + (shape % stride), "count": 1200 - (shape % stride), "stride": stride}
@@ -379,15 +381,41 @@ def mutant_cases(draw):
     return {"kind": "mutant", "of": of, "string": s, "op": op}
 
 
+def fuzz_decode_filename(data):
+    try:
+        s = data.decode("utf-8")
+    except UnicodeDecodeError:
+        return [], False
+    before = NOTES["ambiguous-not-judged"]
+    discs = judge("filename", s)
+    judged = NOTES["ambiguous-not-judged"] == before
+    NOTES.clear()
+    return discs, judged
+
+
+FUZZ_TARGETS = {"decode_filename": fuzz_decode_filename}
+
+
 def plan(tier):
+    stages = plan_base(tier)
+    if tier == "thorough":
+        tokens = ["IMG", "VOL", "LED", "TRL", "-HH", "-HV", "-VV", "ALOS2", "-140829", "1.1", "1.5", "3.1", "1.0", "__A", "RUD", "-F1", "-B9", *list(OBSERVATION_MODES)]
+        seeds = [b"IMG-HH-ALOS2014410740-140829-HBQR1.1__A", b"VOL-ALOS2014410740-140829-WBDR1.5RUD", b"IMG-VV-ALOS2014410740-140829-WBDR1.1__D-F3"]
+        stages.append({"kind": "fuzz", "name": "atheris-decode_filename", "target": "decode_filename", "seconds": 300, "corpus": seeds,
+                       "shard_all": True, "max_len": 64, "dict": tokens})
+        stages.append({"kind": "fuzz", "name": "atheris-decode_filename-empty-corpus", "target": "decode_filename", "seconds": 120, "corpus": [], "max_len": 64, "dict": tokens})
+    return stages
+
+
+def plan_base(tier):
     return [
-        {"kind": "enum", "name": "code-table cross products", "cases": lambda: enum_cases(tier), "exhaustive": tier == "thorough"},
+        {"kind": "enum", "name": "code-table cross products", "cases": lambda: enum_cases(tier), "exhaustive": True},
         {"kind": "hyp", "name": "near-misses", "strategy": mutant_cases(), "examples": 8000 if tier == "quick" else 200000},
     ]
 
 
 def sub_units(case):
-    if case["kind"] in ("groupnames", "open"):
+    if case["kind"] in ("groupnames", "open", "fuzz-input"):
         yield case, True
         return
     kind, strings = strings_for(case)
